@@ -91,6 +91,19 @@ Definition enc_server_hello (h : server_hello) : option bytes :=
   let? ex := enc_extensions_block (sh_extensions h) in
   enc_handshake 2 (enc_uint 2 (sh_version h) ++ sh_random h ++ sid ++ enc_uint 2 (sh_suite h) ++ enc_uint 1 (sh_compression h) ++ ex).
 
+Definition dec_server_hello_body (b : bytes) : option server_hello :=
+  let? (ver, r0) := dec_uint 2 b in
+  if Nat.ltb (length r0) 32 then None else
+  let rnd := firstn 32 r0 in let r1 := skipn 32 r0 in
+  let? (sid, r2) := dec_opaque 0 32 r1 in
+  let? (cs, r3) := dec_uint 2 r2 in
+  let? (cm, r4) := dec_uint 1 r3 in
+  let? ex := dec_extensions_block r4 in
+  Some {| sh_version := ver; sh_random := rnd; sh_session_id := sid; sh_suite := cs; sh_compression := cm; sh_extensions := ex |}.
+(* under handshake type ty: 2 for the ServerHello, 6 for the hello retry request below *)
+Definition dec_server_hello_typed (ty : Z) (b : bytes) : option (server_hello * bytes) :=
+  let? (body, r) := dec_handshake ty b in let? h := dec_server_hello_body body in Some (h, r).
+
 (* The hello retry request of the library: the ServerHello layout (as in RFC 8446 4.1.4, where it is a ServerHello with a fixed
    Random) under handshake type 6, the type the TLS 1.3 drafts gave the message *)
 Definition enc_hello_retry_request (h : server_hello) : option bytes :=
